@@ -36,6 +36,8 @@ pub fn check(tier: Tier) -> Check {
     parts.push(Part::new("C14/streams", json!({"depth": tier.pick(5, 6)}), tier.pick(1, 2), tier.pick(40, 400)));
     // a long backlog (127 .. 1025 unread messages) in a stream that is only read after the drop
     parts.push(Part::new("C14/backlog", json!({}), 0, 60));
+    // more than 65 535 identifier-bearing operations after the drop
+    parts.push(Part::new("C14/many-after-drop", json!({}), 0, 120));
     // requests made before a connection attempt that is refused; then the Context is dropped
     parts.push(Part::new("C14/refused", json!({}), 0, 60));
     // value flavour (DESIGN 4): the same exploration with requests / inbound messages of unusual content
@@ -191,7 +193,42 @@ fn refused(name: String, params: Value) -> Scenario {
     })
 }
 
+/// After the drop 65 600 more identifier-bearing operations are started (on two clones): each fails
+/// with ContextExited at once - also the 65 536th and later ones.
+fn many_after_drop(name: String, params: Value) -> Scenario {
+    Box::new(move |chz, ex| {
+        let pending_first = chz.choose(2) == 1;
+        let mut sys = Sys::new("C14", &name, chz);
+        sys.params = params.clone();
+        sys.m.check_client_acks = false;
+        sys.bring_up(vec![]);
+        if pending_first {
+            sys.apply(Ev::Start(OpSpec::Publish(PublishSpec::simple(1, "t/p", b"pending at the drop"))));
+        }
+        sys.apply(Ev::DropCtx);
+        let specs = [
+            OpSpec::Publish(PublishSpec::simple(1, "t", b"a")),
+            OpSpec::Publish(PublishSpec::simple(2, "t", b"b")),
+            OpSpec::Subscribe(SubscribeSpec::simple("s")),
+            OpSpec::Unsubscribe(UnsubscribeSpec::simple("s")),
+        ];
+        for i in 0..65_600usize {
+            if sys.dead {
+                break;
+            }
+            let sp = specs[i % 4].clone();
+            if i % 2 == 0 { sys.apply(Ev::StartW(sp)) } else { sys.apply(Ev::Start(sp)) }
+        }
+        sys.finish();
+        sys.events = vec!["Context dropped, then 65 600 identifier-bearing operations".into()];
+        sys.report(ex, &["op-after-context-gone"]);
+    })
+}
+
 pub fn scenario(name: &str, params: &Value) -> Scenario {
+    if name == "C14/many-after-drop" {
+        return many_after_drop(name.to_string(), params.clone());
+    }
     if name == "C14/refused" {
         return refused(name.to_string(), params.clone());
     }
